@@ -2,6 +2,7 @@ package c09
 
 import (
 	"fmt"
+	"strings"
 	"testing"
 
 	"verif/internal/h"
@@ -107,7 +108,8 @@ func runRing(c RingCase, rec *h.Rec) error {
 		return
 	}
 
-	prefix := "C09:ring." + c.Op
+	// the Many variants loop over the single-step routine: same key
+	prefix := "C09:ring." + strings.Replace(c.Op, "ByLastModulusMany", "ByLastModulus", 1)
 	orig := snapPoly(mk())
 	// reference: distinct output one allocated nb levels lower, zeroed scratch polynomial
 	refIn, refOut, pan := exec(false, 0, false)
